@@ -85,7 +85,7 @@ def gen_case(rng: random.Random, tier: str) -> dict:
         rsel = rng.sample(outs, rng.randint(1, min(3, len(outs))))
     if isinstance(rsel, list) and rng.random() < 0.2 and g["ext"]:
         rsel = rsel + [rng.choice(g["ext"])]  # a plain INPUT name in the selection: rejected, or at least never returned
-    rsel_tuple = isinstance(rsel, list) and rng.random() < 0.3  # the selection is given as a tuple instead of a list
+    rsel_tuple = rng.choice([True, "set", "frozenset"]) if (isinstance(rsel, list) and rng.random() < 0.4) else False  # the selection is given as a tuple / set / frozenset instead of a list
     fns = gen.fn_nodes(g)
     fault = None
     if fns and rng.random() < 0.3:
@@ -257,7 +257,8 @@ def run_case(doc: dict) -> dict:
         eff = _effective(doc, outs)
         kw = {"on_missing": doc["on_missing"], "error_handling": doc["error_handling"]}
         if doc.get("rsel") is not None:
-            kw["select"] = tuple(doc["rsel"]) if (doc.get("rsel_tuple") and isinstance(doc["rsel"], list)) else doc["rsel"]
+            conv = {True: tuple, "set": set, "frozenset": frozenset}.get(doc.get("rsel_tuple"))
+            kw["select"] = conv(doc["rsel"]) if (conv and isinstance(doc["rsel"], list)) else doc["rsel"]
         faults = [doc["fault"]] if doc.get("fault") else []
         modes = (["async"] if doc.get("interrupt") else ["sync", "async"])
         for mode in modes:
